@@ -11,6 +11,7 @@ SEED="${VERIF_SEED:-1}"
 RUNS="${FG_FUZZ_RUNS:-60000}"
 JOBS="${FG_FUZZ_JOBS:-16}"
 export CARGO_NET_OFFLINE=true
+export FG_VERIF_DIR="$VERIF"
 case "$prop" in
   C01|C02|C03|C04|C05|C06|C07|C08|C09|C10) target=run;;
   C11|C12|C13|C14|C16|C17) target=builder;;
@@ -39,7 +40,9 @@ for cfg in $configs; do
   corpus=$((corpus + $(ls "$work/corpus" | wc -l)))
   engines="$engines{\"engine\":\"libFuzzer (cargo-fuzz, no sanitizer, in-target oracles, FG_PROP=$prop)\",\"target\":\"$target\",\"build\":\"$cfg\",\"jobs\":$JOBS,\"runs_per_job\":$RUNS,\"executions\":$execs,\"edge_coverage\":${c:-0},\"seed\":$SEED},"
   shopt -s nullglob
-  for a in "$work"/artifacts/*; do
+  # many jobs usually hit the same root cause: turn the three smallest artifacts into replays
+  for a in $(ls -S -r "$work"/artifacts/ 2>/dev/null | head -3); do
+    a="$work/artifacts/$a"
     "$fg" fuzz-replay $target $prop "$a"; r=$?
     if [ $r -eq 1 ]; then rc=1; elif [ $r -ne 0 ] && [ $rc -eq 0 ]; then rc=2; fi
   done
